@@ -484,7 +484,8 @@ class Run:
         from pyvc import lemmas
         recs = []
         for nm in names:
-            for r in getattr(lemmas, nm)():
+            fn = getattr(self.mod, nm, None) or getattr(lemmas, nm)      # property-specific or shared lemma set
+            for r in fn():
                 recs.append(r)
                 self.n_ob += 1
                 self.solver_time += r["time_s"]
@@ -642,6 +643,10 @@ class Run:
         for unit, reason in self.unsupported:
             print(f"  not verified (outside the accepted subset): {unit.name}: {reason}")
             found = self.bounded_standin(unit, reason)
+            if not found and getattr(unit, "bounded_by_design", False):
+                # declared in the contract module and in DESIGN.md: this function is outside
+                # the reach of the verifier; the bounded stand-in is its (labelled) check
+                continue
             if not found:
                 self.undecided.append(f"{unit.name}: left the accepted subset ({reason}); "
                                       f"bounded stand-in found no failing input")
